@@ -3,7 +3,9 @@
 //! Layout: `lib.rs` (oracle domain, comparison helpers, generators, the per-type forwarding trait),
 //! `generic.rs` (dot / magnitude / distance / normalisation family / predicates, reflected / refracted /
 //! face_forward, angle_between — for every spatial type), `v2.rs` (determine_side, triangle areas),
-//! `v3.rs` (cross, slerp), `v4.rs` (homogenisation).
+//! `v3.rs` (cross, slerp), `v4.rs` (homogenisation), `scale.rs` (every scale-invariant / scale-covariant function
+//! with operands scaled exactly by 2^k, tiny and huge), `slerp_edge.rs` (slerp at very small angles, next to pi,
+//! with endpoints of different and extreme lengths, through all four entry points).
 //!
 //! Every oracle works on plain arrays in the *oracle domain* `S::O` (`Rat` for `Rat`, `f64` for `f64`/`f32`)
 //! and never calls the vek function it judges. Vectors are built with struct / tuple-struct literals and read
@@ -308,6 +310,8 @@ impl_sp!(Vec64, 64, tuple,
      32 33 34 35 36 37 38 39 40 41 42 43 44 45 46 47 48 49 50 51 52 53 54 55 56 57 58 59 60 61 62 63));
 
 mod generic;
+mod scale;
+mod slerp_edge;
 mod v2;
 mod v3;
 mod v4;
@@ -318,6 +322,8 @@ pub fn property() -> Property {
     v2::checks(&mut checks);
     v3::checks(&mut checks);
     v4::checks(&mut checks);
+    scale::checks(&mut checks);
+    slerp_edge::checks(&mut checks);
     Property {
         id: "C11",
         rule: "cases are byte tapes generated by proptest (uniform bytes, fixed seed) decoded by constructive generators into labelled classes, plus two exhaustively enumerated integer grids (cross on {-1,0,1}^6, determine_side / areas on {-2..2}^6). \
